@@ -20,9 +20,10 @@ RULE = ('grid (exhaustive every run): direction {request->server, response->clie
         '{200,204,304,404,100-then-200,103-with-its-own-content-length-then-200} x content-length {absent,0,n,n-1,n+1} x body n in {0,1,10} split into 1-3 DATA frames '
         '(empty frame first/last) x padding {none,0,7} x END_STREAM on {HEADERS, last DATA, extra empty DATA, trailers} x HEAD '
         'request trailers {no,yes}; plus random larger bodies and chunkings (3000 quick, 400000 thorough), 40% of them with a refused local call (header '
-        'block naming another method, trailers without END_STREAM, invalid response) made on the stream before the message arrives; non-trivial = message reached its '
+        'block naming another method, trailers without END_STREAM, invalid response) made on the stream before the message arrives, and under varying receive-side configuration (header_encoding, inbound validation / normalisation) and '
+        'target naming (:authority or host); non-trivial = message reached its '
         'END_STREAM frame or was rejected and the verdict was compared; distinct = grid cell')
-MINIMA = {'messages_judged': 3000, 'malformed_expected': 800, 'wellformed_expected': 800, 'no_content_responses': 300, 'informational_with_content_length': 300, 'refused_local_call_before_the_message': 250}
+MINIMA = {'messages_judged': 3000, 'malformed_expected': 800, 'wellformed_expected': 800, 'no_content_responses': 300, 'informational_with_content_length': 300, 'refused_local_call_before_the_message': 250, 'messages_under_non_default_configuration': 1000}
 EXHAUSTIVE = {}
 
 METHODS = [b'GET', b'HEAD', b'POST']
@@ -104,8 +105,10 @@ def run_case(idx, rng, tier, rep):
         fitted.append(part)
     parts = fitted
     noise = rng.choice(NOISE) if rng.random() < 0.4 else None
+    # receive-side configuration and the way the request names its target say nothing about the length of the body
+    variant = (rng.choice([None, None, 'utf-8']), rng.random() < 0.8, rng.random() < 0.8, rng.choice(['authority', 'authority', 'host']))
     cell = (direction, m, stt, cl, n, tuple(parts), pad, rng.choice(ES),
-            direction == 'response' and m == b'HEAD' and rng.random() < 0.5, noise)
+            direction == 'response' and m == b'HEAD' and rng.random() < 0.5, noise, variant)
     if cell[7] == 'headers' and n:
         return
     return run_cell(cell, rep, 'random')
@@ -128,6 +131,7 @@ def refused(t, rep, *call, **kw):
 def run_cell(cell, rep, layer):
     direction, method, status, cl, n, sp, pad, es, head_trailers = cell[:9]
     noise = cell[9] if len(cell) > 9 else None
+    enc, validate, normalize, naming = cell[10] if len(cell) > 10 else (None, True, True, 'authority')
     clv = clval(cl, n)
     if clv is not None and clv < 0:
         return          # negative content-length: undetermined class, not generated
@@ -135,12 +139,19 @@ def run_cell(cell, rep, layer):
     if es == 'headers':
         parts = []
     e_client = direction == 'response'
-    h = scen.Hostile(e_client, keep_log=True)
+    cfg = {}
+    if len(cell) > 10:
+        cfg = dict(header_encoding=enc, validate_inbound_headers=validate, normalize_inbound_headers=normalize)
+        rep.count('messages_under_non_default_configuration' if (enc or not validate or not normalize or naming == 'host') else
+                  'messages_under_default_configuration')
+    h = scen.Hostile(e_client, keep_log=True, cfg=cfg)
     t = h.t
     extra = [] if clv is None else [(b'content-length', str(clv).encode())]
     frames = []      # (bytes, carries_end_stream)
     if e_client:
         req = [(b':method', method), (b':scheme', b'https'), (b':authority', b'example.com'), (b':path', b'/')]
+        if naming == 'host':
+            req = [x for x in req if x[0] != b':authority'] + [(b'host', b'example.com')]
         other = [(b':method', b'GET' if method == b'HEAD' else b'HEAD')] + req[1:]
         if head_trailers:
             sid, r = h.e_request(headers=req)
@@ -176,6 +187,8 @@ def run_cell(cell, rep, layer):
         sid = h.peer_next
         h.peer_next += 2
         hdr = [(b':method', method), (b':scheme', b'https'), (b':authority', b'example.com'), (b':path', b'/')] + extra
+        if naming == 'host':
+            hdr = [x for x in hdr if x[0] != b':authority'] + [(b'host', b'example.com')]
     frames.append((wire.build_headers(sid, hb(hdr), end_stream=(es == 'headers')), es == 'headers'))
     for i, k in enumerate(parts):
         last = i == len(parts) - 1
